@@ -974,6 +974,40 @@ def key_alg_consistent(k: Kit, rule: str) -> None:
                   k.loc(fi, r), g.describe_path(w) if w else None)
 
 
+def no_empty_host_name(k: Kit, rule: str) -> None:
+    """An empty element of a host list is not a host."""
+    rep = k.rep
+    fi = k.func('known_hosts.SSHKnownHosts._add_exact')
+    g = k.cfg(fi)
+    stores = [n for n in g.nodes if n.kind == 'stmt' and
+              n.ast is not None and any(
+        isinstance(x, ast.Subscript) and
+        dotted(x.value) == 'self._exact_entries' and
+        isinstance(x.ctx, ast.Store) for x in ast.walk(n.ast))] + \
+        [n for n, c in k.call_nodes(fi, lambda c: is_call(c, 'append') or
+                                    is_call(c, 'setdefault'))]
+    rep.floor(rule, 'exact entry registrations', len(stores), 1)
+    loopvars = {t.id for x in ast.walk(fi.node) if isinstance(x, ast.For)
+                for t in ast.walk(x.target) if isinstance(t, ast.Name)}
+
+    def nonempty(x: Node) -> Optional[bool]:
+        if x.kind == 'atom' and isinstance(x.ast, ast.Name) and \
+                x.ast.id in loopvars:
+            return True
+        return None
+    for n in stores:
+        w = g.guarded_by(n.id, nonempty)
+        rep.check(w is None, rule, key(fi, 'empty host name not registered'),
+                  'entries are filed only under non-empty names',
+                  'a known_hosts line whose host list has an empty element '
+                  '("good.example.com, KEY", a trailing or doubled comma) '
+                  'files its key under the name "": _match looks up the '
+                  'peer address as an exact name, and that is "" for every '
+                  'connection without a peer address (proxy_command, '
+                  'tunnel) - the key is then trusted for any host reached '
+                  'that way', k.loc(fi, n), g.describe_path(w) if w else None)
+
+
 def r5(k: Kit) -> None:
     """Bracket escaping of host patterns; every line for a key is tried."""
     rep = k.rep
@@ -1144,6 +1178,7 @@ def run(idx, rep, tier):
              '[host]:port lookup found are part of the result either way')
     port_fallback(k, 'C17.R6')
     build_pattern_witnesses(k, 'C17.R1')
+    no_empty_host_name(k, 'C17.R2')
     # C17.R7: shared rule
     from .c04 import r6 as _c04r6
     rep.rule('C17.R7', 'lookups do not change the loaded file (= C04.R6): SSHKnownHosts._match builds its result in a fresh list and never extends a stored per-host entry list')
